@@ -23,7 +23,17 @@ type c16Case struct {
 	Pat   int  `json:"identity_pattern"`
 	Shift bool `json:"shifted_followup"` // a second derivation whose CK'/identity boundary is moved by one octet (same concatenation)
 	GC    bool `json:"held_across_gc,omitempty"`
+	Before *c16Case `json:"derivation_before,omitempty"` // the derivation whose results the caller still holds while this one runs
 }
+
+// c16Held: the five keys of the previous derivation of this process, still held by the caller.
+type c16HeldT struct {
+	cs   c16Case
+	got  [5][]byte
+	want [5][]byte
+}
+
+var c16Held *c16HeldT
 
 func c16Identity(n, pat int) []byte {
 	switch pat {
@@ -61,7 +71,7 @@ func init() {
 	engine.Register(&engine.Check{
 		ID:    "C16",
 		Level: "exploration",
-		Rule: "all 4096 (|IK'|,|CK'|) pairs in 1..64 × 1..64 × identities {0, 15, 31 octets × patterns} and all identity lengths 0..255 × 6 content patterns (digits, 0x00, 0xFF, invalid UTF-8, multi-byte UTF-8, seeded) × 4 key-length pairs (thorough: the full product of lengths with 3 patterns); plus empty IK'/CK'. " +
+		Rule: "all 4096 (|IK'|,|CK'|) pairs in 1..64 × 1..64 × identities {0, 15, 31 octets × patterns} and all identity lengths 0..255 × 6 content patterns (digits, 0x00, 0xFF, invalid UTF-8, multi-byte UTF-8, seeded) × 4 key-length pairs (thorough: the full product of lengths with 3 patterns); plus empty IK'/CK'. The five keys of every derivation are held while the next one (other inputs) runs and compared again afterwards. " +
 			"Oracle: the five outputs equal octets 0-15, 16-47, 48-79, 80-143, 144-207 of the reference PRF' (own HMAC over SHA-256); empty key → error. distinct_nontrivial = distinct (lengths, identity) inputs whose five outputs were compared",
 		Run: func(c *engine.Ctx) {
 			for ik := 0; ik <= 64; ik++ {
@@ -94,6 +104,11 @@ func init() {
 		Replay: func(c *engine.Ctx, raw json.RawMessage) {
 			var cs c16Case
 			unmarshalCase(raw, &cs)
+			c16Held = nil
+			if cs.Before != nil {
+				evalC16(c, *cs.Before)
+				cs.Before = nil
+			}
 			evalC16(c, cs)
 		},
 	})
@@ -132,6 +147,21 @@ func evalC16(c *engine.Ctx, cs c16Case) {
 			return
 		}
 	}
+	// the caller still holds the keys of the previous derivation (another subscriber's context): they are what
+	// they were
+	if h := c16Held; h != nil {
+		for i, n := range []string{"K_encr", "K_aut", "K_re", "MSK", "EMSK"} {
+			if !bytes.Equal(h.got[i], h.want[i]) {
+				y := cs
+				y.Before = &h.cs
+				c16Held = nil
+				c.Violate("key/changed-by-later-derivation/"+n, fmt.Sprintf("%s of the derivation (|IK'|=%d |CK'|=%d identity %d) was correct when returned and reads %x… after the next derivation (|IK'|=%d |CK'|=%d identity %d)", n, h.cs.IK, h.cs.CK, h.cs.ID, trunc(h.got[i], 16), cs.IK, cs.CK, cs.ID), y)
+				return
+			}
+		}
+		c.Count("held_across_next_derivation", 1)
+	}
+	c16Held = &c16HeldT{cs: cs, got: [5][]byte{ke, ka, kr, msk, emsk}, want: [5][]byte{wke, wka, wkr, wmsk, wemsk}}
 	c.Distinct(engine.Hash64(ke, emsk))
 	c.Sample("prf'", map[string]interface{}{"case": cs, "K_encr": engine.Hex(ke)})
 	// the caller keeps the keys: they are still the keys after the collector (and any finalizer) has run
